@@ -2,7 +2,7 @@
 #include <stdlib.h>
 void sim_gomp_config(int T, int iso); void sim_gomp_watch(void *p, size_t n); void sim_gomp_stats(long *o); void sim_gomp_reset_stats(void);
 int main(void) {
-    static int acc[4]; long st[12];
+    static int acc[4]; long st[16];
     sim_gomp_watch(acc, sizeof acc);
     sim_gomp_config(3, 1);
     #pragma omp parallel
